@@ -47,7 +47,7 @@ def run_property(pid, tier, seed, only=None, jobs=None):
     t0 = time.time()
     mod = importlib.import_module(f"props.{pid.lower()}")
     findings = load_findings()
-    my_findings = [f for f in findings if f.get("property") == pid]
+    my_findings = [f for f in findings if pid in (f.get("properties") or [f.get("property")])]
     gen = kf_generated(findings)
     if hasattr(mod, "generated_rs"):
         gen += mod.generated_rs(seed, tier)
@@ -203,7 +203,7 @@ def write_evidence(pid, tier, seed, mod, results, build_info, wall, nviol, lines
         for f in r.get("functions") or []:
             fns.add(f)
         s = {k: r.get(k) for k in ("oid", "engine", "desc", "functions", "bounds", "outside", "verdict", "checks", "queries",
-                                   "feasible_paths", "vars", "clauses", "solver_s", "wall_s", "covers_satisfied",
+                                   "feasible_paths", "vars", "clauses", "solver_s", "wall_s", "covers_satisfied", "excluded_known_finding_paths", "callees",
                                    "failed", "counterexamples", "detail", "validation", "cross_check") if r.get(k) not in (None, [], "")}
         samples.append(s)
     ev = {
